@@ -554,11 +554,11 @@ ensures
         r.parent == spec_tree(validators@, fanout, own_id, slot, shred).parent,
         r.children@ == spec_tree(validators@, fanout, own_id, slot, shred).children@,
         tree_members_ok(r, validators@.len() as int),
-before `let root = validator_indices[0];`
+before `let root =`
         proof {
             axiom_order_is_perm(validators@, slot, shred);
         }
-before `let parent_pos = match own_pos {`
+before `let parent_pos =`
         proof {
             let order = validator_indices@;
             assert(own_pos == pos_of(order, own_id)) by {
@@ -643,25 +643,6 @@ ensures
                 old(self).spec_own_tree(shred.spec_payload().header.slot, Self::spec_shred_key(*shred)).children@) }),
 @*/
 }
-
-// The two position expressions of TurbineTree::new (verbatim statements)
-/*@ extract-stmts src/disseminator/turbine.rs :: impl TurbineTree/fn new
-props C16
-from `let parent_pos = match own_pos {`
-to `let offset = own_pos * fanout + 1;`
-wrap fn turbine_positions(own_pos: usize, fanout: usize) -> (r: (Option<usize>, usize))
-tail (parent_pos, offset)
-requires
-        fanout >= 1,
-        own_pos * fanout + 1 <= usize::MAX,
-ensures
-        // [C16.turbine_parent_and_children_offsets]
-        r.1 == own_pos * fanout + 1,
-        own_pos == 0 ==> r.0 is None,
-        own_pos > 0 ==> r.0 == Some(((own_pos - 1) / (fanout as int)) as usize) && is_child_of(own_pos as int, (own_pos - 1) / (fanout as int), fanout as int),
-before `let parent_pos = match own_pos {`
-        proof { if own_pos > 0 { theorem_turbine_tree(own_pos as int, fanout as int); } }
-@*/
 
 } // mod code
 
